@@ -88,6 +88,25 @@ def build_bundle(design: dict, bname: str, built: Built) -> h.Bundle:
         built.bundles[bname] = h.Diff
         built.roles[bname] = {r: h.Diff.roles[r] for r in ("SOURCE", "SINK")}
         return h.Diff
+    if bd.get("roles") and bd.get("roles_via") == "unnamed":
+        # class-style definition whose roles come from `h.Roles(n)`: they have no names until the decorator has seen them
+        rl = h.Roles(len(bd["roles"]))
+        roles = dict(zip(bd["roles"], rl))
+        body = dict(roles)
+        for s in bd["sigs"]:
+            name, width, kind = s[0], s[1], s[2]
+            if isinstance(kind, list):
+                body[name] = h.Signal(width=width, src=roles.get(kind[1]), dest=roles.get(kind[2]))
+            else:
+                body[name] = {"sig": h.Signal, "port": h.Port, "in": h.Input, "out": h.Output, "inout": h.Inout}[kind](width=width)
+        for sub in bd["subs"]:
+            subdef = build_bundle(design, sub[1], built)
+            subrole = built.roles[sub[1]].get(sub[3]) if len(sub) > 3 and sub[3] else None
+            body[sub[0]] = h.BundleInstance(of=subdef, flipped=bool(sub[2]), role=subrole)
+        b = h.bundle(type(built.name(bname), (), body))
+        built.roles[bname] = roles
+        built.bundles[bname] = b
+        return b
     b = h.Bundle(name=built.name(bname))
     roles = {}
     if bd.get("roles"):
